@@ -377,15 +377,27 @@ def r5(idx, rep):
                 continue
             okw = fi.qual in allowed or fi.cls in listed
             rep.check(okw, "R5", f"{fi.file}::{fi.qual} writes csvpath.variables", f"`{unparse(n)}`: variables may be written only through set_variable/get_variable", K.where(fi, n))
-    # Matcher forwards both calls unchanged
-    seen = []
-    fm, ps = K.sym_result(idx, "Matcher", "get_variable", args={"__pos__": ["n"], "tracking": "t", "set_if_none": 0},
-                          handlers={"self.csvpath.get_variable": lambda i, c, r, a, k: (seen.append((a, k)), "V")[1]})
-    rep.check(len(ps) == 1 and ps[0].result == ("return", "V") and seen == [(["n"], {"tracking": "t", "set_if_none": 0})], "R5", f"{fm.file}::Matcher.get_variable forwards", f"{seen}", K.where(fm, fm.node))
+    matcher_forwards(idx, rep, "R5")
     seen = []
     fm, ps = K.sym_result(idx, "Matcher", "set_variable", args={"__pos__": ["n"], "value": 5, "tracking": "t"},
                           handlers={"self.csvpath.set_variable": lambda i, c, r, a, k: seen.append((a, k))})
     rep.check(seen == [(["n"], {"value": 5, "tracking": "t"})], "R5", f"{fm.file}::Matcher.set_variable forwards", f"{seen}", K.where(fm, fm.node))
+
+
+def matcher_forwards(idx, rep, rid):
+    """Matcher.get_variable hands back exactly what CsvPath.get_variable returns — '', 'None', 'nan', 0, False and [] are values, not
+    absences — and passes name, tracking and set_if_none through"""
+    bad = None
+    fm = idx.method("Matcher", "get_variable")
+    for v in ("V", "", "None", "nan", 0, False, [], None, {"k": 1}):
+        seen = []
+        _, ps = K.sym_result(idx, "Matcher", "get_variable", args={"__pos__": ["n"], "tracking": "t", "set_if_none": 0}, types={"ExpressionUtility": "ExpressionUtility"},
+                             inline=FM.EU_INLINE, handlers={"self.csvpath.get_variable": lambda i, c, r, a, k, v=v: (seen.append((a, k)), v)[1], "math.isnan": FM._isnan})
+        if len(ps) != 1 or ps[0].result[0] != "return" or ps[0].result[1] != v or type(ps[0].result[1]) is not type(v):
+            bad = bad or f"the csvpath holds {v!r}: Matcher.get_variable returns {[p.result for p in ps][:2]}"
+        elif not seen or seen[0] != (["n"], {"tracking": "t", "set_if_none": 0}):
+            bad = bad or f"CsvPath.get_variable is called with {seen}; documented ('n', tracking='t', set_if_none=0)"
+    rep.check(bad is None, rid, f"{fm.file}::Matcher.get_variable forwards", bad or "", K.where(fm, fm.node))
 
 
 def _copy(x):
